@@ -139,3 +139,11 @@ Theorem remove_intersections_total_on_string_hints : forall ss,
   ri_hints_ok ss = true -> is_ok' (remove_intersections ss) = true.
 Proof. exact remove_intersections_no_panic. Qed.
 Print Assumptions remove_intersections_total_on_string_hints.
+Theorem disjunction_infer_mapping_no_crash : forall ss, dim_safe_schemas ss = true -> is_ok' (disjunction_infer_mapping ss) = true.
+Proof. exact dim_no_crash. Qed.
+Print Assumptions disjunction_infer_mapping_no_crash.
+(* never an error or a panic; the stack is exhausted only through a reference cycle (OutOfFuel) *)
+Theorem disjunction_of_constants_to_enum_ok_or_fuel : forall ss,
+  enums_scalar ss = true -> ok_or_fuel' (disjunction_of_constants_to_enum ss) = true.
+Proof. exact docte_ok_or_fuel. Qed.
+Print Assumptions disjunction_of_constants_to_enum_ok_or_fuel.
